@@ -51,6 +51,12 @@ Amplify == [op |-> "amplify", window |-> 8, fill |-> 48000]
 AmplifyCount(item) == item.k = "lit" \/ (item.k = "f" /\ item.ty \in (NumTypes \ {"u64le", "f32le", "u32le_nz"}) \cup TextNumTypes)
 AmplifyRepeat(item) == item.k = "txt" \/ (item.k = "f" /\ item.ty \in StrTypes)
 
+\* Second compound: every numeric extreme (set_num, set_textnum, set_lit_byte) is also delivered with the datagrams of each
+\* multi-datagram reply in reverse order - a size that is checked on "the first fragment" must be checked on whichever
+\* fragment arrives first.  The split-packet framing fields (id, size, decompressed size, CRC, total, number) are items like
+\* any other for the item-wise descriptors.
+ExtremeReversed == [op |-> "extreme_reversed", of |-> {"set_num", "set_textnum", "set_lit_byte"}]
+
 \* which items a descriptor applies to
 AppliesTo(d, item) ==
   CASE d.op \in {"truncate_at", "truncate_inside"} -> TRUE
